@@ -42,6 +42,9 @@ class World:
         self.ls = []
         self.bulk_members = []   # vertices created by "bulk_u": members of universes but not part of the pool
         self.restrictive = set()  # pool indices of universes that were given restrictive (non-default) laws
+        # documented parameter NAMES used as keywords (v.add_to_link(link=l), ...): only where a raising call is tolerated
+        # (C01), so that a library renaming a parameter makes no check fail
+        self.keyword_spelling = False
 
     @classmethod
     def from_pool(cls, vs, ls, uidx=()):
@@ -51,6 +54,7 @@ class World:
         w = cls.__new__(cls)
         w.classes = classes
         w.vs, w.ls, w.uidx, w.bulk_members, w.restrictive = list(vs), list(ls), list(uidx), [], set()
+        w.keyword_spelling = False
         return w
 
     # ------------------------------------------------------------ resolution
@@ -222,6 +226,8 @@ class World:
         if name == "unlink":
             if r[3] is None:
                 return explicit.unlink(self.vs[r[1]], self.vs[r[2]])
+            if (r[1] + r[2]) % 2:
+                return explicit.unlink(self.vs[r[1]], self.vs[r[2]], r[3])        # `destroy` given positionally
             return explicit.unlink(self.vs[r[1]], self.vs[r[2]], destroy=r[3])
         if name == "bulk":
             _, a, b, ci, K = r
@@ -284,12 +290,20 @@ class World:
                         self.ls.append(l)
             return out
         if name == "al":
+            if self.keyword_spelling and (r[1] + r[2]) % 2:
+                return self.vs[r[2]].add_to_link(link=self.ls[r[1]])            # the parameter spelled as a keyword
             return self.vs[r[2]].add_to_link(self.ls[r[1]])
         if name == "rl":
+            if self.keyword_spelling and (r[1] + r[2]) % 2:
+                return self.vs[r[2]].remove_from_link(link=self.ls[r[1]])
             return self.vs[r[2]].remove_from_link(self.ls[r[1]])
         if name == "av":
+            if self.keyword_spelling and r[2] is not None and (r[1] + r[2]) % 2:
+                return self.ls[r[1]].add_vertex(new=self.v(r[2]))
             return self.ls[r[1]].add_vertex(self.v(r[2]))
         if name == "uf":
+            if self.keyword_spelling and r[2] is not None and (r[1] + r[2]) % 2:
+                return self.ls[r[1]].unlink_from(kill=self.v(r[2]))
             return self.ls[r[1]].unlink_from(self.v(r[2]))
         if name == "newv":
             arg = [self.ls[x] for x in r[1]]
@@ -297,14 +311,15 @@ class World:
             nvx = Vertex(links=arg, attributes={"i": len(self.vs)})
             self.vs.append(nvx)
             return nvx
+        kwspell = (self.keyword_spelling and (r[1] + r[2]) % 2) if name in ("ua", "ur", "va", "vr") else 0     # parameters spelled as keywords
         if name == "ua":
-            return self.vs[r[1]].add_vertex(self.vs[r[2]])
+            return self.vs[r[1]].add_vertex(vert=self.vs[r[2]]) if kwspell else self.vs[r[1]].add_vertex(self.vs[r[2]])
         if name == "ur":
-            return self.vs[r[1]].remove_vertex(self.vs[r[2]])
+            return self.vs[r[1]].remove_vertex(vert=self.vs[r[2]]) if kwspell else self.vs[r[1]].remove_vertex(self.vs[r[2]])
         if name == "va":
-            return self.vs[r[2]].add_to_universe(self.vs[r[1]])
+            return self.vs[r[2]].add_to_universe(universe=self.vs[r[1]]) if kwspell else self.vs[r[2]].add_to_universe(self.vs[r[1]])
         if name == "vr":
-            return self.vs[r[2]].remove_from_universe(self.vs[r[1]])
+            return self.vs[r[2]].remove_from_universe(universe=self.vs[r[1]]) if kwspell else self.vs[r[2]].remove_from_universe(self.vs[r[1]])
         if name == "newv_u":
             arg = [self.vs[x] for x in r[1]]
             # the argument may be any iterable: list, tuple, or a one-shot iterator
